@@ -147,7 +147,8 @@ CursorOK(c) ==
     /\ c.ph = "BD" => /\ c.buf = <<>>
                       /\ c.pending.h.cl # <<0>>
                       /\ DigGtNat(c.pending.h.cl, Len(c.bodyVec))
-                      /\ DigLeq(c.pending.h.cl, c.limit)
     /\ c.ph # "BD" => c.bodyVec = <<>>
+\* while the limit is not changed under a request: a body being received was admitted under the limit
+BodyAdmitted(c) == c.ph = "BD" => DigLeq(c.pending.h.cl, c.limit)
 
 =============================================================================
